@@ -3,7 +3,7 @@ PROP = dict(
     make=["build/bin/c01", "build/gen/x86_forms.txt"],
     quick=dict(cases=96000, max_size=100, workers=16, extra_args=["--reps=24"]),
     thorough=dict(cases=20000000, max_size=100, workers=16, extra_args=["--reps=1200"], timeout=7200),
-    rule=("deterministic sweep: every form of the x86 ISA database (db/isa_x86.json expanded by db/x86.js, dumped at check time) x {32,64}-bit mode x R "
+    rule=("Session 2: 40% of the cases carry an encoding option - mod_mr() / mod_rm() on VEX/EVEX/XOP forms, vex3() on VEX forms (evex(), long_() and rex() are not generated, DESIGN 14.3) - the judges compare decoded operands, not bytes; EVEX disp8*N is judged in 16-bit addressing too. deterministic sweep: every form of the x86 ISA database (db/isa_x86.json expanded by db/x86.js, dumped at check time) x {32,64}-bit mode x R "
           "instantiations (registers incl. high ids / SP,BP,R12,R13 / AH..BH / SPL..DIL, every memory shape incl. 16-bit, 32-in-64, RIP, absolute, VSIB, "
           "segment, broadcast, disp8*N boundaries, boundary immediates, {k}{z}{er}{sae}, lock/rep/xacquire/xrelease), then rapidcheck-generated (mode, form, "
           "choices) cases; each accepted instruction (strict validation on) is judged by J3 = ISA-DB template judge (prefixes, REX/VEX/EVEX payload, "
